@@ -133,7 +133,6 @@ def r06_2(ctx: Ctx):
         # provenance of the iterated collection
         src_ok = is_self_attr(src, "active_demes", selfn)
         if isinstance(src, ast.Name):
-            from ..core import local_defs
 
             defs = local_defs(f).get(src.id, [])
             src_ok = bool(defs) and all(is_self_attr(_iter_source_attr(d), "active_demes", selfn) for d in defs)
@@ -157,7 +156,14 @@ def r06_2(ctx: Ctx):
             if isinstance(c, ast.Call) and isinstance(c.func, ast.Attribute) and c.func.attr == "run_metaepoch":
                 recv_ok = isinstance(c.func.value, ast.Name) and c.func.value.id in tnames
                 arg_ok = len(c.args) == 1 and isinstance(c.args[0], ast.Name) and c.args[0].id == selfn
-                obs.append(ctx.ob("R06.2", f, c, status=OK if (recv_ok and arg_ok) else VIOLATION, detail="steps the iterated deme with the tree" if (recv_ok and arg_ok) else "step call does not have the form <loop deme>.run_metaepoch(<tree>)"))
+                # positive evidence of a wrong step: another tree / no tree handed over, or a receiver that is a fixed deme
+                # (root, a constant index); a receiver reached through the loop variable (an index into a list, a local bound
+                # from it) is outside the form read here
+                recv_names = {x.id for x in ast.walk(c.func.value) if isinstance(x, ast.Name)}
+                fdefs_ = local_defs(f)
+                via_loop = bool(recv_names & tnames) or any(any(isinstance(y, ast.Name) and y.id in tnames for d_ in fdefs_.get(nm_, []) for y in ast.walk(d_)) for nm_ in recv_names)
+                st_step = OK if (recv_ok and arg_ok) else INCONCLUSIVE if (arg_ok and via_loop) else VIOLATION
+                obs.append(ctx.ob("R06.2", f, c, status=st_step, detail="steps the iterated deme with the tree" if (recv_ok and arg_ok) else "step call does not have the form <loop deme>.run_metaepoch(<tree>)"))
     # once per iteration
     viol = []
 
